@@ -37,6 +37,13 @@ def closeOnLast : Bool :=
   unregisterClosesLastSession && removeReportsRemainingBackendRoom && removeReportsRemainingRoom &&
   removeReportsRemainingUser && removeReportsRemainingSession
 
+/-- A subscriber made for a subject only starts processing after the closed subscriber of the same subject
+has finished: `run` waits for `previous`, the deferred function of `run` closes `done`, `closeSubscriber`
+remembers `done` under the key, and `Register*Listener` hands it to the new subscriber. -/
+def waitsForPrevious : Bool :=
+  runWaitsForPrevious && runSignalsDone && closeRemembersSubscriber &&
+  registerAtomicBackendRoom && registerAtomicRoom && registerAtomicUser && registerAtomicSession
+
 /-! ### state -/
 
 /-- One `async*SubscriberNats` (subscription + receiver goroutine + listener set). -/
@@ -120,7 +127,8 @@ inductive Act where
   | dispatch
   /-- dispatcher (no lock): non-blocking send to the next channel of the copy -/
   | send
-  /-- receiver goroutine `k`: `msg := <-s.receiver` -/
+  /-- receiver goroutine `k`: `msg := <-s.receiver` (after `<-s.previous`: the earlier subscribers of the
+  subject have finished) -/
   | take (k : Nat)
   /-- receiver goroutine `k` (s.mu): copy the listener set -/
   | snap (k : Nat)
@@ -130,7 +138,7 @@ inductive Act where
   | call (k : Nat)
   /-- receiver goroutine `k`: iteration finished, back to `select` -/
   | finish (k : Nat)
-  /-- receiver goroutine `k`: `<-s.closeChan`, deferred `Unsubscribe` (c.mu) -/
+  /-- receiver goroutine `k`: `<-s.closeChan`, deferred `Unsubscribe` (c.mu) and `close(s.done)` -/
   | exit (k : Nat)
   /-- `Register*Listener` (e.mu held for the whole call; s.mu, c.mu inside) -/
   | register (l s : Nat)
@@ -161,9 +169,13 @@ def send (st : State) : Option State :=
       some { st with sending := rest, dropped := true }
     else none   -- a blocking send would stall the dispatcher here
 
+/-- every earlier subscriber of the subject of `k` has left `run` -/
+def earlierDone (st : State) (k : Nat) : Bool :=
+  (List.range k).all fun k' => (st.sub k').subj != (st.sub k).subj || !(st.sub k').attached
+
 def take (st : State) (k : Nat) : Option State :=
   let b := st.sub k
-  if k < st.nsubs ∧ b.attached = true ∧ b.cur = none then
+  if k < st.nsubs ∧ b.attached = true ∧ b.cur = none ∧ (waitsForPrevious = false ∨ earlierDone st k = true) then
     match b.chan with
     | i :: rest => some (st.upd k fun b => { b with chan := rest, cur := some i, snapped := false, tovisit := [], pending := none })
     | [] => none
@@ -275,22 +287,6 @@ theorem Reach.runActs {st st' : State} (h : Reach st) : ∀ {as : List Act}, run
     cases hs : Bus.step st a with
     | none => simp [hs] at e
     | some s1 => rw [hs] at e; exact ih (Reach.next a h hs) e
-
-/-! ### prompt executions: the callback is entered right after the check (`visit` = `pick` ; `call`) -/
-
-def visit (st : State) (k l : Nat) : Option State :=
-  match pick st k l with
-  | some st1 => if ((st1.sub k).pending).isSome then call st1 k else some st1
-  | none => none
-
-def stepP (st : State) : Act → Option State
-  | .pick k l => visit st k l
-  | .call _ => none
-  | a => step st a
-
-inductive ReachP : State → Prop where
-  | init : ReachP State.init
-  | next {st st' : State} (a : Act) : ReachP st → stepP st a = some st' → ReachP st'
 
 /-! ### what a listener has received -/
 
